@@ -593,7 +593,7 @@ func openssl(args ...string) ([]byte, error) {
 }
 
 var (
-	poolPEM    string            // every fixture certificate, for -certfile
+	poolPEM    string                // every fixture certificate, for -certfile
 	leafPubPEM = map[string]string{} // key -> path of the leaf public key (PEM), made by openssl itself
 	pgpKeyring = map[string]string{} // key -> dearmored public key file
 	gpgHome    string
